@@ -235,6 +235,17 @@ class ChildWorld:
             ev["status"] = int(self.lib.engineexport_verif_status())
             ev["loops"] = int(self.lib.engineexport_verif_loopcount())
             ev["seed"] = int(script.rng_seed)
+            try:
+                # the time quantities exactly as the front end hands them to the engine (same expressions as
+                # LibRDEngine._setup_*); the oracles check them against the SI spec and use them to resolve ties
+                eus = eng._units_system
+                ev["ts_e"] = [float(v) for v in script.t_sample.convert(eus).value]
+                ev["tmax_e"] = float(script.t_max.convert(eus).value)
+                ev["interval_e"] = float(script.sampling_interval.convert(eus).value)
+                ev["dt_e"] = float(script.time_step.convert(eus).value)
+                ev["eus"] = {"space": eus["space"], "time": eus["time"], "quantity": eus["quantity"]}
+            except Exception as e:
+                ev["ts_e_exc"] = repr(e)
             if len(op) > 1 and op[1] == "churn":
                 junk = [bytearray(64 + 8 * (i % 50)) for i in range(400)]
                 del junk
@@ -274,10 +285,10 @@ class ChildWorld:
             done = False
             k = 0
             want_obs = any(o[0] == "observe" for o in plan)
-            while nloop < cap:
+            while True:
                 o = plan[k % len(plan)]
                 if o[0] in LOOP_OPS:
-                    if done:
+                    if done or nloop >= cap:
                         break
                     r, _ = self.do_loop_op(eng, o)
                     nloop += 1
@@ -336,6 +347,48 @@ class ChildWorld:
         elif name == "drop_script":
             # forget the cached RDScript so that the next set-up constructs a new one (rng_seed=None draws again)
             self.scripts.pop(sidx, None)
+        elif name == "kinetics":
+            # co-observer: the Python kinetics functions evaluated at the state the engine is in right now
+            # ["kinetics", entries [[s, i], ...] or "all", apply_chemostats, units_system dict, "dxdtf"?]
+            st = self.st
+            ob = self.observe()
+            system = self.get_system(sidx)
+            eus = eng._units_system
+            import numpy as _np
+            x = _np.frombuffer(ob["x"], dtype=_np.float64).copy()
+            state = st.UnitArray(x, st.Units(sys=eus, dim=st.quantity_units_dimensions()), check_value=False)
+            U = st.UnitsSystem(**op[3])
+            ev["x"] = ob["x"]
+            ev["t"] = ob["t"]
+            vals, dims = [], []
+            from strengths import kinetics
+            if op[1] == "all":
+                r = kinetics.compute_dstatedt(system, state=state, apply_chemostats=bool(op[2]), units_system=U)
+                vals = [float(v) for v in r.value]
+                dims = [[r.units.dim["space"], r.units.dim["time"], r.units.dim["quantity"]]]
+                ev["usys"] = [r.units.sys["space"], r.units.sys["time"], r.units.sys["quantity"]]
+            else:
+                for (s, i) in op[1]:
+                    r = kinetics.compute_dspeciesdt(system, int(s), int(i), state, bool(op[2]), U)
+                    vals.append(float(r.value))
+                    dims.append([r.units.dim["space"], r.units.dim["time"], r.units.dim["quantity"]])
+                    ev.setdefault("usys_list", []).append([r.units.sys["space"], r.units.sys["time"], r.units.sys["quantity"]])
+            ev["vals"] = vals
+            ev["dims"] = dims
+            if len(op) > 4 and op[4] == "dxdtf":
+                f = system.make_dxdtf(U)
+                xs = state.convert(U).value
+                ev["dxdtf"] = [float(v) for v in f(0.0, list(xs))]
+        elif name == "apply_reaction":
+            # ["apply_reaction", reaction index, position, n]: hand-applied reaction on the RDSystem; becomes the
+            # initial state of the next set-up of this script
+            system = self.get_system(sidx)
+            before = system.state.copy()
+            system.apply_reaction(int(op[1]), position=int(op[2]), n=op[3], update=True)
+            self.scripts.pop(sidx, None)
+            ev["state"] = system.state.value.tobytes()
+            ev["state_units"] = str(system.state.units)
+            ev["before"] = before.value.tobytes()
         elif name == "gc":
             gc.collect()
         elif name == "poison":
